@@ -17,18 +17,34 @@
 (* Cache = "writeback" is the implementation-shaped reader whose Markdown  *)
 (* renderer stores the level it wrote (capped at six) back into the parsed *)
 (* paragraph; TLC must refute Purity for it (Markdown, then Document, on a *)
-(* heading deeper than level six).                                         *)
+(* heading deeper than level six).  Cache = "firstxo" is the reader that    *)
+(* collects the header / footer lines to filter for the options of its     *)
+(* first excluding call and never again; TLC refutes Purity for it too.    *)
 (***************************************************************************)
 EXTENDS WordDoc
 
-CONSTANTS Calls,     \* [op |-> "text" | "md" | "mdopt" | "rag" | "doc" | "tables", off, mx]
+CONSTANTS Calls,     \* [op |-> "text" | "md" | "mdopt" | "rag" | "doc" | "tables", off, mx, xo]
+                     \* xo = the call's own extraction options (ExcludeHeaders / ExcludeFooters):
+                     \* "none" | "h" | "f" | "hf"; text, mdopt and rag take them
           MaxLen,    \* calls per history
-          Cache      \* "pure" | "writeback"
+          Cache      \* "pure" | "writeback" | "firstxo"
 
 VARIABLES held,      \* the heading level the reader holds per body block
-          hist       \* the calls so far, each with the levels it presented
+          xheld,     \* the exclusion options the reader holds ("": none) - implementation-shaped
+                     \* reader "firstxo": the header / footer lines to filter are collected for the
+                     \* options of the first excluding call and kept
+          hist       \* the calls so far, each with the levels it presented and the number of
+                     \* body paragraphs equal to the header line / footer line it showed
 
-hvars == <<doc, pos, out, held, hist>>
+hvars == <<doc, pos, out, held, xheld, hist>>
+
+\* body paragraphs that equal the header line / the footer line
+NEcho(d, a) == Cardinality({i \in 1..Len(d.body) : IsEcho(d.body[i], a)})
+TakesXo(c) == c.op \in {"text", "mdopt", "rag"}
+\* ExcludeHeaders / ExcludeFooters filter out body paragraphs that match a header / footer
+\* line; a paragraph the call's own options do not cover is body content and is shown
+Covers(xo, a) == (a = "eh" /\ xo \in {"h", "hf"}) \/ (a = "ef" /\ xo \in {"f", "hf"})
+EchoShown(d, xo, a) == IF Covers(xo, a) THEN 0 ELSE NEcho(d, a)
 
 SrcLevels(d) == [i \in 1..Len(d.body) |-> IF Item(d, i).k = "H" THEN Item(d, i).lvl ELSE 0]
 
@@ -47,15 +63,23 @@ View(L, c) == [i \in 1..Len(L) |->
                  ELSE MdOut(L[i], 0, 0)]
 
 HInit == /\ doc \in Docs /\ pos = 0 /\ out = <<>>
-         /\ held = SrcLevels(doc) /\ hist = <<>>
+         /\ held = SrcLevels(doc) /\ xheld = "" /\ hist = <<>>
 
 \* one public call on the reader
+OwnXo(c) == IF TakesXo(c) THEN c.xo ELSE "none"
+
 DoCall(c) ==
-    LET O == View(held, c) IN
+    LET O  == View(held, c)
+        \* the options the filter actually uses
+        xo == IF Cache = "firstxo" /\ OwnXo(c) # "none" /\ xheld # "" THEN xheld ELSE OwnXo(c)
+    IN
     /\ held' = IF Cache = "writeback" /\ c.op \in {"md", "mdopt", "rag"}
                THEN [i \in 1..Len(held) |-> IF held[i] = 0 THEN 0 ELSE O[i]]
                ELSE held
-    /\ hist' = Append(hist, [call |-> c, levels |-> O])
+    /\ xheld' = IF Cache = "firstxo" /\ OwnXo(c) # "none" /\ xheld = "" THEN OwnXo(c) ELSE xheld
+    /\ hist' = Append(hist, [call |-> c, levels |-> O,
+                             eh |-> IF c.op = "tables" THEN 0 ELSE EchoShown(doc, xo, "eh"),
+                             ef |-> IF c.op = "tables" THEN 0 ELSE EchoShown(doc, xo, "ef")])
     /\ UNCHANGED <<doc, pos, out>>
 
 HNext == \E c \in Calls : Len(hist) < MaxLen /\ DoCall(c)
@@ -64,7 +88,11 @@ HSpec == HInit /\ [][HNext]_hvars
 
 Fresh(d, c) == View(SrcLevels(d), c)
 
-Purity       == \A n \in 1..Len(hist) : hist[n].levels = Fresh(doc, hist[n].call)
+FreshEcho(d, c, a) == IF c.op = "tables" THEN 0 ELSE EchoShown(d, OwnXo(c), a)
+
+Purity       == \A n \in 1..Len(hist) : /\ hist[n].levels = Fresh(doc, hist[n].call)
+                                          /\ hist[n].eh = FreshEcho(doc, hist[n].call, "eh")
+                                          /\ hist[n].ef = FreshEcho(doc, hist[n].call, "ef")
 HeldFaithful == held = SrcLevels(doc)
 HTypeOK      == IsDoc(doc) /\ Len(hist) <= MaxLen /\ Len(held) = Len(doc.body)
 =============================================================================
